@@ -271,6 +271,7 @@ def cli_run(ctx, text, models, target, tag, files=None):
         src = os.path.join(d, "src")
         os.makedirs(src, exist_ok=True)
         for fn in sorted(files):
+            os.makedirs(os.path.dirname(os.path.join(src, fn)), exist_ok=True)
             with open(os.path.join(src, fn), "w") as f:
                 f.write(files[fn])
     else:
@@ -375,6 +376,49 @@ def check_cli(ctx, case):
     elif exp_rc != "unknown" and multi_rc != exp_rc:
         ctx.violation("compiler CLI exit status for several -m differs from the single runs",
                       case, expected=exp_rc, observed=multi_rc, kind="history")
+
+
+def api_run(scratch, files, calls, tag):
+    """casadi.api.transfer_model for (directory, model) pairs, one after the other in this process"""
+    import pymoca.backends.casadi.api as capi
+    src = os.path.join(scratch, "api-%s" % tag)
+    for fn in sorted(files):
+        os.makedirs(os.path.dirname(os.path.join(src, fn)), exist_ok=True)
+        with open(os.path.join(src, fn), "w") as f:
+            f.write(files[fn])
+    out = []
+    for d, m in calls:
+        r = a04.outcome(lambda: a04.casadi_canon(capi.transfer_model(os.path.join(src, d), m, {})))
+        out.append([d, m, r[0], r[1]])
+    return out
+
+
+def check_api(ctx, case):
+    """several transfer_model calls in one process: each gives what it gives alone in a clean process"""
+    quiet_logs()
+    from harness.gen import a04_worker
+    files, calls = case["files"], case["calls"]
+    got = api_run(ctx.scratch, files, calls, "m%d" % ctx.evaluations)
+    ctx.count("api-casadi")
+    for k, (d, m) in enumerate(calls):
+        exp = a04_worker.fresh().ask({"k": "transfer", "files": files, "calls": [[d, m]], "scratch": ctx.scratch,
+                                      "tag": "s%d-%d" % (ctx.evaluations, k)})[0]
+        ctx.count("api-call-%s" % ("ok" if exp[2] == "ok" else "fails-alone"))
+        if list(got[k]) != list(exp):
+            ctx.violation("casadi.api.transfer_model gives a model a different result after other models were compiled in the "
+                          "process than alone (%s)" % describe((exp[2], exp[3]), (got[k][2], got[k][3])),
+                          dict(case, upto=k + 1), expected=_cut(exp), observed=_cut(got[k]), kind="history")
+            return
+
+
+def gen_api_case(ctx, rng):
+    lib, g = a04.gen_library(rng)
+    ndir = rng.choice([2, 2, 3])
+    files = {"d%d/%s.mo" % (rng.randrange(ndir), c["name"]): a04.render_cls(c) for c in lib["classes"]}
+    where = {fn.split("/")[1][:-3]: fn.split("/")[0] for fn in files}
+    names = [c["name"] for c in lib["classes"] if c["kind"] == "model"]
+    calls = [[where[m], m] for m in (rng.choice(names) for _ in range(rng.randint(3, 6)))]
+    return dict(stream="api", text=a04.render(lib), files=files, calls=calls)
 
 
 def _cut(x):
@@ -485,7 +529,9 @@ def gen_cli_case(ctx, rng, target=None):
     """every target of the CLI (flatten only, -t sympy, -t casadi) with several -m; one file per top-level class"""
     lib, g = a04.gen_library(rng, p_broken=1.0)
     text = a04.render(lib)
-    files = {c["name"] + ".mo": a04.render_cls(c) for c in lib["classes"]}
+    # the files are spread over several directories (the casadi target compiles a model against its own directory)
+    ndir = rng.choice([1, 2, 3])
+    files = {"d%d/%s.mo" % (rng.randrange(ndir), c["name"]): a04.render_cls(c) for c in lib["classes"]}
     if target == "casadi":
         names = [c["name"] for c in lib["classes"] if c["kind"] == "model"]    # needs <model>.mo
     else:
@@ -507,7 +553,10 @@ def gen_cli_case(ctx, rng, target=None):
 
 
 def run_case(ctx, case, drv):
-    if case.get("stream") == "cli":
+    if case.get("stream") == "api":
+        ctx.case({"files": case["files"], "calls": case["calls"]}, nontrivial=len(case["calls"]) >= 2)
+        check_api(ctx, case)
+    elif case.get("stream") == "cli":
         ctx.case({"text": case["text"], "models": case["models"], "target": case.get("target")},
                  nontrivial=len(case["models"]) >= 2)
         check_cli(ctx, case)
@@ -542,6 +591,10 @@ def run(ctx):
         if ctx.time_left() < 0:
             break
         run_case(ctx, gen_cli_case(ctx, ctx.rng, [None, "sympy", "casadi"][i % 3]), drv)
+    for i in range(2 if quick else 40):
+        if ctx.time_left() < 0:
+            break
+        run_case(ctx, gen_api_case(ctx, ctx.rng), drv)
     nlib, nreq = (30, 12) if quick else (1500, 30)
     for i in range(nlib):
         if ctx.time_left() < 0:
